@@ -44,6 +44,58 @@ CLAIMED["C20"] = dict(
    note="operand values are the evaluator's own (exported as extra outputs); x86_64 only",
    technique="TLA+ design model (TLC) + replay of TLC-generated programs + TLA+ trace validation",
    design_ref="DESIGN.md section 3 C20")
+CLAIMED["C03"] = dict(
+   text="TLC exhausts the interval-arithmetic model on a saturating IEEE-like number line (every finite start box, every op sequence to "
+        "depth 2-3: well-formedness and enclosure of a carried point) and enumerates the case classes each operator distinguishes; the "
+        "harness evaluates the real interpreter and JIT interval evaluators on generator programs, class-directed single-op cases and "
+        "shapes with affine / projective transforms; Trace_C03 (TLA+) decides enclosure of every sampled point value (4 ulps; NaN "
+        "interval / NaN point excepted) end to end and, as local obligations on all-slots-exported tapes, per op.",
+   note="the point evaluator is the oracle (as the property states); boxes are sampled at corners, edge midpoints, centre, interior and "
+        "critical points; WGSL and aarch64 not reachable",
+   technique="TLA+ design model (TLC) + TLC-enumerated case classes replayed into the real evaluators + TLA+ trace validation",
+   design_ref="DESIGN.md section 3 C03")
+CLAIMED["C05"] = dict(
+   text="TLC checks the dual-number rules against exact polynomial derivatives; for programs of the exact sub-language with arbitrary "
+        "integer seeds Trace_C05 recomputes every output dual in Integers and requires VM<255>, VM<3>, JIT and the symbolic derivative "
+        "to return exactly those numbers; for all other opcodes and forms each op of an all-slots-exported tape is judged locally "
+        "against the chain rule on the operand duals the evaluator itself reported, and smooth whole programs / transformed shapes "
+        "against an f64 dual-number reference (judged clauses, tolerance stated in the spec).",
+   note="judged clauses rely on the harness's f64 reference; non-differentiable loci and ill-conditioned programs are excluded as the property says",
+   technique="TLA+ exact dual arithmetic (TLC) + replay + TLA+ trace validation; f64 reference for judged clauses",
+   design_ref="DESIGN.md section 3 C05")
+CLAIMED["C10"] = dict(
+   text="TLC exhausts the reuse model (stale-content tokens through the transcribed reset code of evaluators, workspace and storage, "
+        "histories to length 7) and emits every history up to the bound plus simulated long ones; the harness replays each on real "
+        "reused evaluators / tape storage / function storage / workspaces for VM<255>, VM<3> and JIT over functions of different "
+        "shapes and repeats every action with fresh objects; Trace_C10 requires identical observations.",
+   note="fresh-object results are the reference; histories are over three functions at a time",
+   technique="TLA+ design model (TLC) + TLC-generated histories replayed on real objects + TLA+ trace validation",
+   design_ref="DESIGN.md section 3 C10")
+CLAIMED["C11"] = dict(
+   text="TLC searches the interval model for ill-formed intervals (the constructor assertion) through all compositions to depth 2-3; "
+        "the harness calls every evaluator entry point of VM<255>, VM<3> and the JIT (own process, so a signal is an observation) with "
+        "finite inputs up to f32::MAX on random programs and on compositions over the model's alphabet, and with malformed argument "
+        "lists; Trace_C11 requires normal return, well-formed or NaN intervals, error values for malformed arguments.",
+   note="out-of-bounds accesses are only observed as crashes or corrupted guards, not proven absent",
+   technique="TLA+ design model (TLC) + replay of the model's alphabet on real evaluators + TLA+ trace validation",
+   design_ref="DESIGN.md section 3 C11")
+CLAIMED["C14"] = dict(
+   text="TLC exhausts the variable-binding model (every encounter order with repetitions, every supplied set with extras and missing "
+        "variables: slot i holds the variable of index i, errors exactly when a used variable is missing) and emits every case; the "
+        "harness realises each as a weighted sum with distinct prime weights, integer values and integer affine / projective "
+        "transforms on VM and JIT, four evaluator kinds, before and after simplification; Trace_C14 recomputes the expected value and "
+        "partials in Integers.",
+   note="integer values and transforms only (exact); float transforms are covered by C03 / C05",
+   technique="TLA+ design model (TLC) + TLC-generated cases replayed + TLA+ trace validation with exact expectation",
+   design_ref="DESIGN.md section 3 C14")
+CLAIMED["C15"] = dict(
+   text="TLC checks the packer against the documented decoder for every op form, register assignment, repacking map and memory slot "
+        "(one-op round trip); Trace_C15 decodes the words of real Bytecode::new output only as the documentation says (opcode table "
+        "from iter_ops() at record time), executes them symbolically against the SSA tape, checks markers, register / memory bounds "
+        "and the reserved register, and compares an independent numeric executor with the interpreter bit for bit.",
+   note="the WGSL interpreter is not reachable; the format documentation is the reference",
+   technique="TLA+ encoder/decoder model (TLC) + replay + TLA+ trace validation (symbolic decode)",
+   design_ref="DESIGN.md section 3 C15")
 NOT_YET = {}
 props = [json.loads(l) for l in open(os.path.join(ROOT, "properties.jsonl"))]
 m = {
